@@ -281,6 +281,10 @@ func corrClass(name string) string {
 	switch {
 	case name == "honest":
 		return "honest"
+	case strings.HasPrefix(name, "host-answers/"):
+		return "illegal-request-answered"
+	case strings.Contains(name, "stream-ends-after"):
+		return "truncated"
 	case strings.Contains(name, "/signature/"):
 		return "signature"
 	case strings.Contains(name, "truncated"):
